@@ -89,6 +89,7 @@ def main(argv=None):
     ap.add_argument("--replay", default=None)
     ap.add_argument("--stage", default=None, help="run only stages whose name contains this (debug; evidence not written)")
     ap.add_argument("--no-confirm", action="store_true")
+    ap.add_argument("--dump-violations", default=None, help="write every captured violation (stage, case, sig, msg) to this JSON file (debug)")
     args = ap.parse_args(argv)
     pid = args.property.upper()
     t0 = time.time()
@@ -112,6 +113,9 @@ def main(argv=None):
                   f"violations={len(r.violations)} skipped={r.skipped} exhaustive={r.exhaustive} "
                   f"wall={r.wall_s:.1f}s " + " ".join(f"{k}={int(v) if float(v).is_integer() else round(v,4)}" for k, v in sorted(r.counters.items())),
                   flush=True)
+        if args.dump_violations:
+            with open(args.dump_violations, "w") as f:
+                json.dump([{"stage": r.name, "case": v["case"], "sig": v.get("sig", {}), "msg": v["msg"][:600]} for r in results for v in r.violations], f, indent=1)
         known = core.load_known(pid)
         known_lines = []
         new_viols = []
